@@ -27,7 +27,7 @@ MustIdsAreAccepted ==
 \* two records per state: the cursor on the last word, and on a fresh empty word after all of them
 \* (the second makes the engine walk every word, which is where its shadow parser can trip)
 RecAt(ws, i) == LET p == PrefixLevel(C0, SubSeq(ws, 1, i - 1), 1, 0, -1, 0) IN
-                [d |-> d, words |-> ws, i |-> i, newarg |-> NewArgMayStart(p, SubSeq(ws, 1, i - 1)),
+                [d |-> d, words |-> ws, i |-> i, newarg |-> NewArgMayStart(p, SubSeq(ws, 1, i - 1)), helpwalk |-> p.help,
                  must |-> IF NewArgMayStart(p, SubSeq(ws, 1, i - 1)) THEN SetToSeq(MustIds(p.c, p.st, ws[i])) ELSE <<>>]
 Emit == EmitOn =>
   /\ (words # <<>> => PrintT(<<"REPLAY", ToJson(RecAt(words, Len(words)))>>))
